@@ -1,4 +1,7 @@
 //! One module per property. Each exposes `run(&mut Ctx)` and `replay(&Value) -> Option<i32>`.
+pub mod gens;
+pub mod c01;
+pub mod c01_comp;
 pub mod c09;
 pub mod c09b;
 pub mod c11;
@@ -9,7 +12,7 @@ pub mod c16;
 use crate::engine::{Ctx, Tier};
 use serde_json::Value;
 
-pub const ALL: &[&str] = &["C09", "C11", "C15", "C16"];
+pub const ALL: &[&str] = &["C01", "C09", "C11", "C15", "C16"];
 
 pub fn run(id: &str, tier: Tier, seed: u64) -> Option<i32> {
     macro_rules! go {
@@ -20,6 +23,7 @@ pub fn run(id: &str, tier: Tier, seed: u64) -> Option<i32> {
         }};
     }
     match id {
+        "C01" => go!(c01, "C01"),
         "C09" => go!(c09, "C09"),
         "C11" => go!(c11, "C11"),
         "C15" => go!(c15, "C15"),
@@ -30,6 +34,7 @@ pub fn run(id: &str, tier: Tier, seed: u64) -> Option<i32> {
 
 pub fn replay(id: &str, v: &Value) -> Option<i32> {
     match id {
+        "C01" => c01::replay(v),
         "C09" => c09::replay(v),
         "C11" => c11::replay(v),
         "C15" => c15::replay(v),
